@@ -148,8 +148,9 @@ def build(cfg, values=None):
             # the linear matrices are not the subject here (C16): a placeholder of the right size keeps calc_fext from computing them
             from ..shadow import ShimCSR
             nsz = MDB[cc.model]['num0'] + MDB[cc.model]['num1'] * cc.m1 + MDB[cc.model]['num2'] * cc.m2 * cc.n2
-            cc.k0 = ShimCSR((nsz, nsz))
             cc._rebuild()
+            from ..conesym import pin_linear
+            pin_linear(cc, ShimCSR((nsz, nsz)))
             size = cc.get_size()
             ex = sorted(cc.excluded_dofs)
             keep = [i for i in range(size) if i not in ex]
@@ -157,6 +158,7 @@ def build(cfg, values=None):
             for a in range(len(keep)):
                 for j in range(cc.num0):
                     kuk[a, j] = V('kuk_%d_%d' % (a, j))
+            pin_linear(cc, ShimCSR((nsz, nsz)))      # placeholder matrices of the CURRENT definition
             fext = cc.calc_fext(inc=inc, kuk=kuk, silent=True)
             if len(fext) != len(keep):
                 obs.append(('fext-length', Sym.lift(len(fext)), Sym.lift(len(keep))))
@@ -208,14 +210,16 @@ def build(cfg, values=None):
             cc.P, cc.P_inc = V('P'), V('P_inc')
             inc = V('inc')
             nsz = MDB[cc.model]['num0'] + MDB[cc.model]['num1'] * cc.m1 + MDB[cc.model]['num2'] * cc.m2 * cc.n2
-            cc.k0 = ShimCSR((nsz, nsz))
             cc._rebuild()
+            from ..conesym import pin_linear
+            pin_linear(cc, ShimCSR((nsz, nsz)))
             size = cc.get_size()
             keep = [i for i in range(size) if i not in sorted(cc.excluded_dofs)]
             kuk = np.zeros((len(keep), cc.num0), dtype=object)
             for a in range(len(keep)):
                 for j in range(cc.num0):
                     kuk[a, j] = 0
+            pin_linear(cc, ShimCSR((nsz, nsz)))      # placeholder matrices of the CURRENT definition
             fext = cc.calc_fext(inc=inc, kuk=kuk, silent=True)
             W = World(ctx.trig, cc.L, ctx.trig._same)
             W.set_radius(cc.r2, cc.sina, cc.r2)       # only the rotation phit (not used here) divides by r
@@ -251,8 +255,9 @@ def build(cfg, values=None):
             cc.Nxxtop = N.copy()
             inc = V('inc')
             nsz = MDB[cc.model]['num0'] + MDB[cc.model]['num1'] * cc.m1 + MDB[cc.model]['num2'] * cc.m2 * cc.n2
-            cc.k0 = ShimCSR((nsz, nsz))
             cc._rebuild()
+            from ..conesym import pin_linear
+            pin_linear(cc, ShimCSR((nsz, nsz)))
             size = cc.get_size()
             ex = sorted(cc.excluded_dofs)
             keep = [i for i in range(size) if i not in ex]
@@ -260,6 +265,7 @@ def build(cfg, values=None):
             for a in range(len(keep)):
                 for j in range(cc.num0):
                     kuk[a, j] = 0
+            pin_linear(cc, ShimCSR((nsz, nsz)))      # placeholder matrices of the CURRENT definition
             fext = cc.calc_fext(inc=inc, kuk=kuk, silent=True)
             W = World(ctx.trig, cc.L, ctx.trig._same)
             cenv = dict(ctx.kernels.extra_env)
